@@ -76,13 +76,16 @@ theorem readBody_total (s : Sock) (h : Dic) : ∃ r, readBody s h = .ok r ∧ Co
   obtain ⟨r, hr, _⟩ := readBody_ok s h
   exact ⟨r, hr, readBody_suffix s h r hr⟩
 
-/-- the whole keep-alive loop of `HttpServer::serve(Socket)` ends within `|stream| + 1` requests on every stream, and
-    `serve` returns with the connection closed on every exit of the loop (peer closed, Connection: close, HTTP/1.0, a
-    refused request: `closeBehind`, 7f6f841) -/
-theorem serve_total (s : Sock) : ∃ r, serve s = .ok r ∧ ConsumesPrefix s r.1 ∧ r.1.closed = true := by
-  obtain ⟨r, hr, _, _⟩ := serve_ok s
-  obtain ⟨r0, _, hres⟩ := serve_eq s r hr
-  exact ⟨r, hr, serve_suffix s r hr, by rw [hres]; exact closeBehind_closed r0.1⟩
+/-- the whole keep-alive loop of `HttpServer::serve(Socket)` (`serveLoop`) ends within `|stream| + 1` requests on every
+    stream and leaves a suffix of the stream unread; `serve` is that loop followed by `closeBehind` (7f6f841) and returns
+    with the connection closed on every exit of the loop (peer closed, Connection: close, HTTP/1.0, a refused request).
+    The suffix clause is stated on the loop: after `closeBehind` has dropped the peer's remaining bytes it would be
+    trivially true on every exit but the refused-request ones. -/
+theorem serve_total (s : Sock) :
+    ∃ r0, serveLoop s = .ok r0 ∧ ConsumesPrefix s r0.1 ∧
+      serve s = .ok (closeBehind r0.1, r0.2) ∧ (closeBehind r0.1).closed = true := by
+  obtain ⟨r0, hr, _, _⟩ := serveLoop_ok s
+  exact ⟨r0, hr, serveLoop_suffix s r0 hr, serve_of_loop s r0 hr, closeBehind_closed r0.1⟩
 
 /-- `Url::Url(s)` never indexes outside `s`, for every byte string.  (False before fix f8af29f: `"[/]:8"`.) -/
 theorem url_total (u : Bytes) : ∃ r, parseUrl u = .ok r := parseUrl_ok u
@@ -175,6 +178,19 @@ theorem dispatch_requires_valid_content_length (s : Sock) (h : Dic) (r : Sock ×
   obtain ⟨n, h1, h2, _⟩ := validLength_spec _ ((readBody_inv s h r hr hh).2.2 hcl)
   exact ⟨n, h1, h2⟩
 
+/-- the field names a dispatched header block can hold (`foldHeaderLine` accepts a `name: value` line only when
+    `isFieldName name`): non-empty, every byte visible ASCII (0x21-0x7e) or >= 0x80 — so no blank, tab, other control
+    character or DEL before the colon — and no `:`.  `isFieldName` is stated in the spec file independently of the
+    model; the model's `validName` (transcribed from `readHeaders`) is proved equal to it.
+    Note on the framing specification (`HeaderBlockD` / `foldHeaderLine` / `ChunkedWire` in AslProofs/HttpDispatch.lean):
+    it describes the header-line grammar the library accepts and was revised with each reader repair (4dff910, 9bf376e,
+    c2e6d14); for values it uses the model's `trimmed`, `cstr` and `storeHeader`. -/
+theorem field_name_spec (n : Bytes) :
+    (validName n = isFieldName n) ∧
+    (isFieldName n = true ↔ n ≠ [] ∧ ∀ c ∈ n, (33 ≤ c ∧ c ≤ 126) ∨ 128 ≤ c) ∧
+    (∀ (l : Bytes) (i : Nat), findByte 58 (cstr l) = some i → ∀ c ∈ l.take i, c ≠ 58) :=
+  ⟨validName_eq_isFieldName n, isFieldName_iff n, fieldName_no_colon⟩
+
 /-- a request is dispatched only if it has no Transfer-Encoding or its last transfer coding is chunked
     (`gzip`, `chunked, gzip`, `xchunked`: no determinable length, the connection is closed — fix 4dff910) -/
 theorem dispatch_requires_framed_transfer_encoding (s : Sock) (r : Req) (s' : Sock)
@@ -264,19 +280,17 @@ theorem read_faithful (q : WfReq) (rest : Bytes) (hw : WellFormed q) :
              { inp := rest }) := read_faithful_aux q rest hw
 
 /-- the keep-alive loop of `HttpServer::serve` hands **every** pipelined well-formed request to the application, in the
-    order sent, exactly once, with nothing left unread — for any number of requests of any sizes -/
+    order sent, exactly once, and the loop itself has read the whole stream (`s0.inp = []` is stated on `serveLoop`,
+    before `closeBehind` would make it trivially true) — for any number of requests of any sizes -/
 theorem serve_faithful (qs : List WfReq) (hq : ∀ q ∈ qs, WellFormed q ∧ Dispatched q) :
-    ∃ s', serve { inp := qs.flatMap serialize } = .ok (s', qs.map reqOf) ∧ s'.inp = [] ∧ s'.err = 0 := by
+    ∃ s0, serveLoop { inp := qs.flatMap serialize } = .ok (s0, qs.map reqOf) ∧ s0.inp = [] ∧ s0.err = 0 ∧
+      serve { inp := qs.flatMap serialize } = .ok (closeBehind s0, qs.map reqOf) := by
   obtain ⟨s', h1, h2, h3⟩ := iterate_serve_pipelined qs hq ((qs.flatMap serialize).length + 1)
     { inp := qs.flatMap serialize } [] rfl rfl rfl (by have := flatMap_serialize_length qs; omega)
   have hloop : serveLoop { inp := qs.flatMap serialize } = .ok (s', qs.map reqOf) := by
     unfold serveLoop
     simpa using h1
-  refine ⟨closeBehind s', serve_of_loop _ _ hloop, ?_, ?_⟩
-  · have hle := closeBehind_inp_le s'
-    rw [h2] at hle
-    exact List.eq_nil_of_length_eq_zero (by simpa using hle)
-  · exact closeBehind_err s' h3
+  exact ⟨s', hloop, h2, h3, serve_of_loop _ _ hloop⟩
 
 /-- **read ∘ serialize = id for chunked framing**: a well-formed head with `Transfer-Encoding: chunked` (and no
     Content-Length), any list of non-empty chunks of fewer than 2^31 bytes each in the canonical encoding
